@@ -57,7 +57,7 @@ Definition lookup_label (registers : list str) (ls : labels) (sc : lscope) (n : 
   | None =>
       match lfind ls (KFile (scope_file sc) n) with
       | Some v => Some v
-      | None => if mem n registers then None else lfind ls (KGlobal n)
+      | None => if reg_mem n registers then None else lfind ls (KGlobal n)
       end
   end.
 
@@ -117,7 +117,7 @@ Record gstate := {
 
 Definition in_nat (x : nat) (l : list nat) : bool := existsb (Nat.eqb x) l.
 
-Definition is_register_name (cfg : config) (n : str) : bool := mem n (c_registers cfg).
+Definition is_register_name (cfg : config) (n : str) : bool := reg_mem n (c_registers cfg).
 
 Definition eval_in (cfg : config) (ls : labels) (sc : lscope) (e : expr) : result Z :=
   eval (lookup_label (c_registers cfg) ls sc) e.
